@@ -240,6 +240,13 @@ EXTRA9 = {
 }
 for _pid, (_t, _n) in EXTRA9.items():
     EXTRA[_pid] = (EXTRA.get(_pid, ("", ""))[0] + _t, EXTRA.get(_pid, ("", ""))[1] + _n)
+EXTRA10 = {
+ "C04": (" A reachable two-step job whose frac-face schedule may rise above the initial pressure (no bound assumed on the solved levels).", ""),
+ "C08": (" The quadrature limits with the reference pressure written as the constant 0.", ""),
+ "C20": (" Strides equal to and beyond the number of stored profiles, and the default stride on a short run.", ""),
+}
+for _pid, (_t, _n) in EXTRA10.items():
+    EXTRA[_pid] = (EXTRA.get(_pid, ("", ""))[0] + _t, EXTRA.get(_pid, ("", ""))[1] + _n)
 for _pid, (_t, _n) in EXTRA.items():
     CHECKS[_pid]["text"] += _t
     CHECKS[_pid]["note"] += _n
